@@ -19,6 +19,20 @@
 EXTENDS MPText
 
 OptNames == {"n1", "n2", "n3", "pmin", "pmax", "t1", "t2", "lq", "uq", "llq", "lt", "luq", "twopl", "skew"}
+
+(* Both documented spellings of every generator option (README, generator   *)
+(* section): the accepted / rejected verdict and the files written do not   *)
+(* depend on which spelling the caller uses.                                *)
+GenShort == [numinst |-> "-numinst", o |-> "-o", mp |-> "-mp", twopl |-> "-twopl", skew |-> "-skew",
+             n1 |-> "-n1", n2 |-> "-n2", n3 |-> "-n3", pmin |-> "-pmin", pmax |-> "-pmax", t1 |-> "-t1", t2 |-> "-t2",
+             lq |-> "-lq", llq |-> "-llq", uq |-> "-uq", luq |-> "-luq", lt |-> "-lt"]
+GenLong  == [numinst |-> "--numberinstances", o |-> "--outputdirectory", mp |-> "--matchingproblem",
+             twopl |-> "--preferencelists2", skew |-> "--linearskew",
+             n1 |-> "--numberofagents1", n2 |-> "--numberofagents2", n3 |-> "--numberofagents3",
+             pmin |-> "--minpreflistlength", pmax |-> "--maxpreflistlength", t1 |-> "--ties1", t2 |-> "--ties2",
+             lq |-> "--lowerquotas", llq |-> "--lecturerlowerquotas", uq |-> "--upperquotas",
+             luq |-> "--lecturerupperquotas", lt |-> "--lecturertargets"]
+GenOptNames(sp) == IF sp = "long" THEN GenLong ELSE GenShort
 Types == {"ha", "sm", "hr", "spa"}
 
 Required(mp) ==
